@@ -103,3 +103,17 @@ Lemma stale_refuted :
   snd (tstep false (fst (tstep false (trun false stale_history) (TWrite (VStr [48; 48; 55]%N)))) TRead)
   <> Some (Ok (VStr [48; 48; 55]%N)).
 Proof. split; [reflexivity|]. split; [exact I|]. vm_compute. discriminate. Qed.
+
+(* ---------- date and time columns *)
+Lemma roundtrip_col_ok c v : of_col_type c v -> roundtrip_col c v = Ok v.
+Proof.
+  destruct c as [t| |], v as [x|d|s n]; cbn [of_col_type]; try tauto; intros H.
+  - cbn [roundtrip_col]. rewrite (roundtrip_n_ok t x H). reflexivity.
+  - cbn [roundtrip_col instant_of]. rewrite (roundtrip_n_ok TTs (VTs (86400 * d) 0)) by (cbn; lia).
+    cbn [date_of_instant]. rewrite Z.mul_comm, Z_mod_mult, Z.eqb_refl. cbn [andb].
+    rewrite Z_div_mult by lia. reflexivity.
+  - destruct H as [Hs Hn]. cbn [roundtrip_col instant_of].
+    rewrite (roundtrip_n_ok TTs (VTs (year0 + s) n)) by (cbn; lia).
+    cbn [tod_of_instant]. destruct (Z.leb_spec year0 (year0 + s)); [|lia].
+    destruct (Z.ltb_spec (year0 + s) (year0 + 86400)); [|lia]. cbn [andb]. f_equal. f_equal. lia.
+Qed.
